@@ -1390,7 +1390,8 @@ def predicates(c, io):
             for st in steps:
                 if st[0] in ("sys", "vecs", "vals"): fs.append(_exit_finding(_eigen_ctx(cur), "session call '" + st[0] + "' after " + hist, st[0] == "vals"))
                 elif st[0] != "qr": cur, oth = _apply_step(cur, oth, st); hist = "the in-place modifications " + " ".join(" ".join(str(x) for x in t) for t in steps[:steps.index(st) + 1] if t[0] not in _CALLS)
-            known_ = [f for f in fs if f[0].count(":") > 1]
+            # (the class marker ':exact-eigenvalue-shift' is not a region: a signature names a region when something follows 'exit' besides it)
+            known_ = [f for f in fs if f[0].replace(":exact-eigenvalue-shift", "").count(":") > 1]
             return [known_[0] if known_ else fs[0] if fs else ("qr:exit", "QR_Decomposition of a session ended the process")]
         for idx, st in enumerate(steps):
             if st[0] not in _CALLS:
